@@ -94,9 +94,9 @@ def classify_common(rec):
             return "F32-group-by-constant"
         if re.search(r"SELECT NULL FROM", sql) and "aggregate" in kinds:
             return "F25-dropped-aggregate"
-        # a take and a later distinct share ONE SELECT: `SELECT DISTINCT .. LIMIT n`, or -- since fix 456bdcd made the take's sort
-        # keys columns of that SELECT -- `SELECT DISTINCT a, b, <sort key> .. ORDER BY <sort key>` (also without LIMIT: take 1..)
-        if "distinct" in kinds and "take" in kinds and re.search(r"SELECT DISTINCT (?:(?!SELECT ).)*? (?:LIMIT|ORDER BY) ", sql + " ") and take_before_distinct(rec["program"]):
+        # a take and a later distinct share ONE SELECT: `SELECT DISTINCT .. LIMIT n`.  (The variant where the take's sort key became
+        # a column of the SELECT DISTINCT -- a regression of 456bdcd -- is FIXED by 21fe768: `take 1.. | distinct` excuses nothing)
+        if "distinct" in kinds and "take" in kinds and re.search(r"SELECT DISTINCT [^()]* LIMIT", sql) and take_before_distinct(rec["program"]):
             return "F19-take-then-distinct"
     return None
 
@@ -121,14 +121,6 @@ def directed_known(rng=None):
         S("take", "take 3", "TTake None (Some (3))", rng=(None, 3)),
         S("distinct", "group {a} (take 1)", "TDistinct", nkeys=1)], False, ["a"]),
         {"t": [[1, 1, 0, 0, 0], [2, 1, 0, 0, 0], [3, 1, 0, 0, 0], [4, 2, 0, 0, 0], [5, 3, 0, 0, 0]], "u": [[1, 0, 0, 0]]}))
-    # F19 since fix 456bdcd: the take's sort key becomes a column of the SELECT DISTINCT (duplicates survive even when the take
-    # cuts nothing: `take 1..` was right before that fix)
-    out.append(("F19-take-then-distinct", P.Program([
-        S("sort", "sort {id}", "TSort [(false, %s)]" % col("id"), keys=[(False, ("col", None, "id"))]),
-        S("take", "take 1..", "TTake (Some (1)) None", rng=(1, None)),
-        S("select", "select {a, b}", "TSelect [(None, %s); (None, %s)]" % (col("a"), col("b"))),
-        S("distinct", "group {a, b} (take 1)", "TDistinct", nkeys=2)], False, ["a", "b"]),
-        {"t": [[1, 1, 1, 0, 0], [2, 1, 1, 0, 0], [3, 2, 1, 0, 0]], "u": [[1, 0, 0, 0]]}))
     # F32: a group key defined as an integer literal
     out.append(("F32-group-by-constant", P.Program([
         S("derive", "derive {k9 = 2}", "TDerive [(Some %d%%N, ELit (VInt 2))]" % n("k9")),
@@ -185,25 +177,6 @@ def directed_known(rng=None):
         S("select", "select {b, x916 = (b + 1)}", "TSelect [(None, %s); (Some %d%%N, EBin Add (%s) (ELit (VInt 1)))]" % (col("b"), n("x916"), col("b"))),
         S("filter", "filter (b > 0)", "TFilter (EBin Gt (%s) (ELit (VInt 0)))" % col("b")),
         sel(["b", "x916"])], False, ["b", "x916"], {"let_at": 3})))
-    # F44: inside a group body the sort survives an aggregate; what follows the aggregate drags the sort column into the
-    # aggregating SELECT (a bare column next to GROUP BY: SQLite picks an arbitrary row, stricter engines reject the query)
-    out.append(("F44-grouped-aggregate-keeps-sort", P.Program([
-        S("group_body", "group {a} (sort {b, id} | aggregate {x908 = sum c} | take 1)",
-          "TGroupAgg [%d%%N] [(Some %d%%N, ASum, %s)]" % (n("a"), n("x908"), col("c")), by=["a"],
-          flat="PGroup 1 [PSort [false; false]; PAgg; PTake]"),
-        sel(["a", "x908"])], False, ["a", "x908"], {"agg_in_group_not_last": True})))
-    # F41: an inner join on all columns of both sides keeping the left columns is rewritten to INTERSECT
-    on = "EBin And (EBin Eq (%s) (%s)) (EBin Eq (%s) (%s))" % (col("a", "t"), col("a", "u"), col("b", "t"), col("d", "u"))
-    out.append(("F41-inner-join-rewritten-to-intersect", P.Program([
-        S("select", "select {a, b}", "TExclude [%s]" % "; ".join("(None, %d%%N)" % n(c) for c in ("id", "c", "g"))),   # keeps the qualifier t
-        S("distinct", "group {a, b} (take 1)", "TDistinct", nkeys=2),
-        S("join", "join u=(from u | select {a, d}) (t.a == u.a && t.b == u.d)",
-          "TJoin Inner %d%%N %s (Rel.apply (TSelect [(None, %s); (None, %s)]) U_TABLE) (%s)" % (n("u"), P.coq_names(["a", "d"]), col("a"), col("d"), on),
-          side="Inner", alljoin=True),
-        S("select", "select {t.a, t.b}", "TSelect [(None, %s); (None, %s)]" % (col("a", "t"), col("b", "t")), final=True)],
-        False, ["a", "b"]),
-        # a left row matched by two right rows (multiplicity) and a NULL key (`==` never matches NULL, INTERSECT does)
-        {"t": [[1, 1, 1, 0, 0], [2, 1, 1, 0, 0], [3, 2, None, 0, 0]], "u": [[1, 1, 1, 0], [2, 1, 1, 0], [3, 2, None, 0]]}))
     # F45: a group nested in a group is partitioned by its own key only (compiles since fix 592b6f8; was an error before).
     # Reference: the inner group splits every chunk of the outer one = grouping by both keys
     out.append(("F45-nested-group-partition", P.Program([
@@ -279,6 +252,33 @@ def directed_fixed():
         S("group_take1", "group {a} (take 1)", "TGroupTake [%d%%N] [] None (Some (1))" % n("a"), by=["a"], flat="PGroup 1 [PTake]"),
         S("sort", "sort {b}", "TSort [(false, %s)]" % col("b"), keys=[(False, ("col", None, "b"))]),
         sel(["a"])], False, ["a"])))
+    # 21fe768 (regression of 456bdcd): the take's sort key was a column of the SELECT DISTINCT, duplicates survived even when
+    # the take cuts nothing (`take 1..`)
+    out.append(("F72b/21fe768", P.Program([
+        S("sort", "sort {id}", "TSort [(false, %s)]" % col("id"), keys=[(False, ("col", None, "id"))]),
+        S("take", "take 1..", "TTake (Some (1)) None", rng=(1, None)),
+        S("select", "select {a, b}", "TSelect [(None, %s); (None, %s)]" % (col("a"), col("b"))),
+        S("distinct", "group {a, b} (take 1)", "TDistinct", nkeys=2)], False, ["a", "b"]),
+        {"t": [[1, 1, 1, 0, 0], [2, 1, 1, 0, 0], [3, 2, 1, 0, 0]], "u": [[1, 0, 0, 0]]}))
+    # F44: inside a group body the sort survives an aggregate; what follows the aggregate drags the sort column into the
+    # aggregating SELECT (a bare column next to GROUP BY: SQLite picks an arbitrary row, stricter engines reject the query)
+    out.append(("F44/f809321", P.Program([
+        S("group_body", "group {a} (sort {b, id} | aggregate {x908 = sum c} | take 1)",
+          "TGroupAgg [%d%%N] [(Some %d%%N, ASum, %s)]" % (n("a"), n("x908"), col("c")), by=["a"],
+          flat="PGroup 1 [PSort [false; false]; PAgg; PTake]"),
+        sel(["a", "x908"])], False, ["a", "x908"])))
+    # F41: an inner join on all columns of both sides keeping the left columns is rewritten to INTERSECT
+    on = "EBin And (EBin Eq (%s) (%s)) (EBin Eq (%s) (%s))" % (col("a", "t"), col("a", "u"), col("b", "t"), col("d", "u"))
+    out.append(("F41-inner-join-rewritten-to-intersect", P.Program([
+        S("select", "select {a, b}", "TExclude [%s]" % "; ".join("(None, %d%%N)" % n(c) for c in ("id", "c", "g"))),   # keeps the qualifier t
+        S("distinct", "group {a, b} (take 1)", "TDistinct", nkeys=2),
+        S("join", "join u=(from u | select {a, d}) (t.a == u.a && t.b == u.d)",
+          "TJoin Inner %d%%N %s (Rel.apply (TSelect [(None, %s); (None, %s)]) U_TABLE) (%s)" % (n("u"), P.coq_names(["a", "d"]), col("a"), col("d"), on),
+          side="Inner", alljoin=True),
+        S("select", "select {t.a, t.b}", "TSelect [(None, %s); (None, %s)]" % (col("a", "t"), col("b", "t")), final=True)],
+        False, ["a", "b"]),
+        # a left row matched by two right rows (multiplicity) and a NULL key (`==` never matches NULL, INTERSECT does)
+        {"t": [[1, 1, 1, 0, 0], [2, 1, 1, 0, 0], [3, 2, None, 0, 0]], "u": [[1, 1, 1, 0], [2, 1, 1, 0], [3, 2, None, 0]]}))
     # 3561315: DISTINCT ON and DISTINCT never share a SELECT (judged on the PQ of sql.postgres by the segment validator)
     out.append(("3561315", P.Program([
         S("select", "select {id, a, b}", "TSelect [(None, %s); (None, %s); (None, %s)]" % (col("id"), col("a"), col("b"))),
@@ -286,7 +286,7 @@ def directed_fixed():
           by=["a"], keys=[(False, ("col", None, "b")), (False, ("col", None, "id"))]),
         S("select", "select {a, b}", "TSelect [(None, %s); (None, %s)]" % (col("a"), col("b"))),
         S("distinct", "group {a, b} (take 1)", "TDistinct", nkeys=2)], False, ["a", "b"])))
-    return out
+    return [(e[0], e[1]) for e in out]      # instances come from the caller (a fixed instance, where given, is dropped)
 
 
 def append_pruned(sql):
